@@ -551,13 +551,15 @@ func init() {
 	})
 	register(&propDef{
 		ID:          "C19",
-		Explanation: "Decides: (TAB) expandDateComponent's switch and defaultDateFormats cover all 17 declared date components; (CLOCK) the only clock read under Eval is time.Now in Expr.newEnv, called once per Eval outside loops, and $now and $millis embed conversions of one and the same SSA value; (GUARD-API) no nanoseconds-since-epoch API (UnixNano: defined only 1678..2262) is reachable from $toMillis; (GUARD) every integer division/modulo under $fromMillis has a dominating non-zero test of its divisor; (W) $fromMillis/$toMillis and the picture machinery beneath them are functions of their arguments (no write to pre-existing memory, no process-wide cache). NOT decided: calendar field values (the 12-hour clock showing 0 for the midnight hour is real and value-level), the inverse law. (RANGE12) interval proof over SSA with difference constraints: every integer that the formatter dispatched for the 12-hour component hands to formatIntegerComponent lies in 1..12, from time.Time.Hour in 0..23, x % 12 in 0..11 for non-negative x and the dominating zero test; the constant flag passed by the dispatching function is assumed inside the shared helper. (ARGUSE) every argument of FromMillis is read on every path to a successful return.",
+		Explanation: "Decides: (TAB) expandDateComponent's switch and defaultDateFormats cover all 17 declared date components; (CLOCK) the only clock read under Eval is time.Now in Expr.newEnv, called once per Eval outside loops, and $now and $millis embed conversions of one and the same SSA value; (GUARD-API) no nanoseconds-since-epoch API (UnixNano: defined only 1678..2262) is reachable from $toMillis; (GUARD) every integer division/modulo under $fromMillis has a dominating non-zero test of its divisor; (W) $fromMillis/$toMillis and the picture machinery beneath them are functions of their arguments (no write to pre-existing memory, no process-wide cache). NOT decided: calendar field values (the 12-hour clock showing 0 for the midnight hour is real and value-level), the inverse law. (RANGE12) interval proof over SSA with difference constraints: every integer that the formatter dispatched for the 12-hour component hands to formatIntegerComponent lies in 1..12, from time.Time.Hour in 0..23, x % 12 in 0..11 for non-negative x and the dominating zero test; the constant flag passed by the dispatching function is assumed inside the shared helper. (ARGUSE) every argument of FromMillis is read on every path to a successful return. (AMPM) interval proof at both arms of the am/pm choice in the formatter of [P]: where the pm names are chosen time.Time.Hour is at least 12, where the am names are chosen it is at most 11.",
 		Rule:        commonRule,
 		Fixtures:    []string{"guard", "tab", "w", "shape"},
 		Run: func(c *Ctx, r *Result) {
 			runDateTables(c, r, "TAB")
 			runEnumSwitches(c, r, "TAB", []string{"jxpath"}, map[string]bool{"dateComponent": true})
 			runCLOCK(c, r, "CLOCK")
+			ap := runAMPM(c, r, "AMPM")
+			r.RequireMin("AMPM arms of the am/pm choice", ap, 2)
 			r12 := runRANGE12(c, r, "RANGE12")
 			r.RequireMin("RANGE12 integers formatted for the 12-hour component", r12, 1)
 			runUnixNano(c, r, "GUARD-API")
